@@ -11,6 +11,7 @@ mod fam_conform;
 mod schema;
 mod fam_eval;
 mod fam_ext;
+mod fam_partial;
 mod fam_pset;
 mod fam_store;
 mod fam_validate;
@@ -62,6 +63,7 @@ fn family(name: &str) -> Option<(Runner, Driver)> {
         "ext" => (fam_ext::run, fam_ext::drive),
         "conform" => (fam_conform::run, fam_conform::drive),
         "validate" => (fam_validate::run, fam_validate::drive),
+        "partial" => (fam_partial::run, fam_partial::drive),
         _ => return None,
     })
 }
